@@ -46,7 +46,7 @@ func racDir() string {
 	if d := os.Getenv("GOVC_RAC"); d != "" {
 		return d
 	}
-	return "/verif/rac"
+	return home() + "/rac"
 }
 
 // supportHarness: bounded harnesses run in support of a property whose own deciding obligations are
